@@ -276,9 +276,9 @@ def enum_shard(st, shard, nshards, payload):
                 continue
             edges = G.edges_of_mask(n, mask)
             how = idx % 6
-            naming = ('int', 'str', 'revint', 'tuple', 'mixed', 'int')[how]
+            naming = ('int', 'str', 'revint', 'tuple', 'mixed', ('nested', 'nonefirst', 'int')[(idx // 6) % 3])[how]
             total = set(a for a, _ in edges) == set(range(n))
-            via = 'kripke' if (total and idx % 5 == 0) else ('incremental' if idx % 7 == 0 else 'ctor')
+            via = 'kripke' if (total and idx % 5 == 0 and naming not in ('nonefirst', 'nested')) else ('incremental' if idx % 7 == 0 else 'ctor')
             base = {'n': n, 'edges': edges, 'how': how, 'naming': naming, 'via': via}
             cases = [dict(base, op='reverse'), dict(base, op='clone')]
             for X in G.all_subsets(range(n)):
@@ -288,6 +288,13 @@ def enum_shard(st, shard, nshards, payload):
                 cases.append(dict(base, op='subgraph', X=X, xtype=xt))
                 if len(X) % 2 == idx % 2:
                     cases.append(dict(base, op='subgraph', X=X + ['out:%d' % (idx % 3)], xtype=xt))
+            if n >= 3:
+                # X is a tuple / frozenset that EQUALS a node of this very graph (node 2 of the 'nested' naming is
+                # the pair (0, 1), node 4 the frozenset {0, 1}): it is still the collection of the nodes 0 and 1
+                nb = dict(base, naming='nested', via='ctor' if base['via'] == 'kripke' else base['via'])
+                for op_ in ('reach', 'subgraph'):
+                    cases.append(dict(nb, op=op_, X=[0, 1], xtype='tuple'))
+                    cases.append(dict(nb, op=op_, X=[0, 1], xtype='frozenset'))
             for inp in cases:
                 st.evaluations += 1
                 nt = False
